@@ -76,9 +76,16 @@ pub fn run(args: &[String]) -> i32 {
                 m.saturating_sub(1)
             }
         };
+        // Usage protocol of this driver (what fjall's journal lock provides): a writer does not
+        // hold an allocated seqno across a memtable rotation.  Without it the recorded known
+        // finding C06-late-insert (a write inserted after a rotation is invisible at older
+        // retained versions) would fire here at the mercy of the OS scheduler; the forced
+        // schedules decide that case deterministically.
+        let rot = Arc::new(std::sync::RwLock::new(()));
         let mut hs = vec![];
         {
             // writer
+            let rot = rot.clone();
             let (tree, seq, vis, log, conc) = (tree.clone(), seq.clone(), vis.clone(), log.clone(), conc.clone());
             let published = published.clone();
             let mut x = seed ^ 0xA5A5 ^ round;
@@ -87,12 +94,14 @@ pub fn run(args: &[String]) -> i32 {
                     let k = (rnd(&mut x) % nkeys as u64) as i64 + 1;
                     let t = if rnd(&mut x) % 4 == 0 { "T" } else { "V" };
                     let v = (i % 97) as i64 + 1;
+                    let g = rot.read().expect("lock");
                     let s = seq.next();
                     if t == "V" {
                         tree.insert(conc.key(k), conc.val(v), s);
                     } else {
                         tree.remove(conc.key(k), s);
                     }
+                    drop(g);
                     // acknowledged (logged) before it is published
                     log.lock().expect("lock").push(json!({"ev": "w", "k": k, "s": s, "t": t, "v": if t == "V" { v } else { 0 }}));
                     vis.fetch_max(s + 1);
@@ -103,6 +112,7 @@ pub fn run(args: &[String]) -> i32 {
                     // a writer that finds the memtable full seals it itself (what fjall does),
                     // concurrently with whatever the flusher is doing
                     if rnd(&mut x) % 9 == 0 {
+                        let _g = rot.write().expect("lock");
                         tree.rotate_memtable();
                     }
                 }
@@ -150,13 +160,17 @@ pub fn run(args: &[String]) -> i32 {
         {
             // flusher
             let (tree, log, stop) = (tree.clone(), log.clone(), stop.clone());
+            let rot = rot.clone();
             let safe_w = safe_w.clone();
             let mut x = seed ^ 0x7777 ^ round;
             hs.push(std::thread::spawn(move || {
                 while !stop.load(Ordering::Relaxed) {
                     let r = std::panic::catch_unwind(std::panic::AssertUnwindSafe(|| {
                         let lock = tree.get_flush_lock();
-                        tree.rotate_memtable();
+                        {
+                            let _g = rot.write().expect("lock");
+                            tree.rotate_memtable();
+                        }
                         tree.flush(&lock, safe_w(&mut x)).map(|_| ())
                     }));
                     match r {
